@@ -1,4 +1,4 @@
 SPECIFICATION Spec
 INVARIANT ModelOK
-CONSTANT Full = TRUE
+CONSTANT Full = FALSE
 CHECK_DEADLOCK FALSE
